@@ -169,6 +169,18 @@ def build_cli(profile):
     return final, secs
 
 
+def build_keccak_tool():
+    """Compiles the streaming C Keccak-256 reference (tools/keccak256.c). Returns the executable path."""
+    src = os.path.join(VERIF, "tools", "keccak256.c")
+    dst = os.path.join(BUILD, "keccak256")
+    with _Lock("keccaktool"):
+        if not os.path.exists(dst) or os.path.getmtime(dst) < os.path.getmtime(src):
+            tmp = dst + ".tmp%d" % os.getpid()
+            _run(["cc", "-O2", "-Wall", "-o", tmp, src], VERIF, _env(), "keccak tool build")
+            os.replace(tmp, dst)
+    return dst
+
+
 def build_interposer():
     """Compiles the LD_PRELOAD entropy interposer. Returns the .so path."""
     src = os.path.join(VERIF, "interpose", "entropy.c")
